@@ -1231,28 +1231,38 @@ class Exec:
         return []
 
     def ex_Try(self, node, st):
-        fr = self.push_frame(**{'raise': True})
+        fr = self.push_frame(**{'raise': True, 'return': bool(node.finalbody)})
         try:
             normal = self.ex(node.body, st)
         finally:
             self.pop_frame()
         raised = fr['raise']
+        early_returns = fr.get('return', [])
         if node.orelse:
             normal = [s2 for s in normal for s2 in self.ex(node.orelse, s)]
         out = list(normal)
         if node.finalbody:
-            # finally: runs on every exit; other exits (return/break) are caught the same way
-            raise_after = []
-            for (s, e) in raised:
-                handled, unhandled = self.dispatch_handlers(node, s, e)
-                out.extend(handled)
-                raise_after.extend(unhandled)
+            # finally: runs on every exit -- normal completion, exceptions the handlers do not catch, exceptions raised
+            # by the handlers themselves, and return/break/continue leaving the try
+            fr2 = self.push_frame(**{'raise': True, 'return': True})
+            try:
+                raise_after = []
+                for (s, e) in raised:
+                    handled, unhandled = self.dispatch_handlers(node, s, e)
+                    out.extend(handled)
+                    raise_after.extend(unhandled)
+            finally:
+                self.pop_frame()
+            raise_after.extend(fr2['raise'])
             out2 = []
             for s in out:
                 out2.extend(self.ex(node.finalbody, s))
             for (s, e) in raise_after:
                 for s2 in self.ex(node.finalbody, s):
                     self.throw(s2, e)
+            for (s, v) in list(fr2['return']) + list(early_returns):
+                for s2 in self.ex(node.finalbody, s):
+                    self.emit('return', (s2, v))
             return out2
         for (s, e) in raised:
             handled, unhandled = self.dispatch_handlers(node, s, e)
